@@ -59,6 +59,14 @@ for t in tests:
     cmds.append((f"go test -vet=off {race}-count=1 -timeout 10m -run '^({'|'.join(names)})$' ./{d}", os.path.join(d, os.path.basename(t))))
 def run_demo():
     for s, dst in copied: shutil.copy(s, dst)
+    td = os.path.join(demo, "testdata")
+    if os.path.isdir(td):
+        for t, _ in copied or [(None, None)]:
+            pass
+        # demo-specific testdata goes next to the test file(s) (root package when there is none)
+        dirs = {os.path.dirname(dst) for _, dst in copied} or {wt}
+        for d in dirs:
+            shutil.copytree(td, os.path.join(d, "testdata"), dirs_exist_ok=True)
     outs = []; failed = False
     for c, _ in cmds:
         rc, out = sh(c, cwd=wt, timeout=900)
